@@ -14,7 +14,7 @@ EXPLANATION = (
     "World::new (C05-R1 checks their registration). R2: the storage handle's two halves are the declared ones: Storage::new is handed the "
     "EntitiesRes fetch and the MaskedStorage<T> fetch of the same T as the impl's component type. W5: on a storage fetched through the READ "
     "declaration none of insert / get_mut / remove / entry / restrict_mut / channel_mut / drain / clear / as_mut_slice type-checks (E0599), the same "
-    "program on the WRITE declaration does; the entities resource in system data cannot be borrowed mutably (E0596)."
+    "program on the WRITE declaration does; nor can it be joined mutably - Join::join / LendJoin::lend_join / ParJoin::par_join of `&mut ReadStorage` are rejected (E0277, fully qualified because the method-call form auto-derefs to the shared join); the entities resource in system data cannot be borrowed mutably (E0596)."
 )
 NOT_DECIDED = ("shred's stage builder, dispatcher, thread pool and runtime borrow checks; that every system runs exactly once and dependencies are respected")
 TRUSTED = ["rustc nightly MIR, generic-argument printing and type checking", "shred", "sa/ analyses"]
@@ -37,7 +37,8 @@ def run(ctx):
         r1(ctx, facts)
     witness.run_set(ctx, "C11", ["w5_read_storage_no_insert", "w5_read_storage_no_get_mut", "w5_read_storage_no_remove", "w5_read_storage_no_entry",
                                  "w5_read_storage_no_restrict_mut", "w5_read_storage_no_channel_mut", "w5_read_storage_no_drain",
-                                 "w5_read_storage_no_clear", "w5_read_storage_no_as_mut_slice", "w5_entities_not_mut"])
+                                 "w5_read_storage_no_clear", "w5_read_storage_no_as_mut_slice", "w5_entities_not_mut",
+                                 "w5_read_storage_no_mut_join", "w5_read_storage_no_mut_lend_join", "w5_read_storage_no_mut_par_join"])
 
 
 def borrows(b):
